@@ -308,6 +308,17 @@ def run(P, R, tier):
                 R.check(offending is None, 'C20.e', f, st, 'the agreed geometry is adopted regardless of what the constructor hook pre-set on the result',
                         f'adoption is skipped when `{norm(offending) if offending is not None else ""}`: _constructor_from_mgr pre-sets a column literally named "geometry", which then wins over '
                         f'the active geometry the inputs agree on')
+        # ... nor is the input_objs branch skipped by an early return taken when the result already carries a geometry name
+        import cfg as _cfgm
+        Cf = _cfgm.build(f.node)
+        gstores = [st for st in walk_own(f.node) if isinstance(st, ast.Assign) and isinstance(st.targets[0], ast.Attribute) and st.targets[0].attr == '_geometry']
+        for g_ in astq.own_nodes(f, ast.If):
+            t_ = norm(g_.test)
+            if ('._geometry' in t_ or '_has_valid_geometry(' in t_) and any(isinstance(x, ast.Return) for b_ in g_.body for x in ast.walk(b_)) \
+                    and any(Cf.node(g_) is not None and Cf.node(s_) is not None and Cf.can_reach(Cf.node(g_), Cf.node(s_)) for s_ in gstores) \
+                    and not any(any(s_ is y for y in ast.walk(g_)) for s_ in gstores):
+                R.bad('C20.e', f, g_.test, f'__finalize__ returns early when `{t_}`: _constructor_from_mgr pre-sets a column literally named "geometry" on every new frame, so for combined inputs (concat, '
+                      'merge, Dask repartition / compute) the pre-set name wins over the active geometry the inputs agree on', construct='__finalize__ early return on a pre-set geometry')
         # every GeoDataFrame input takes part in the agreement -- also inputs without rows (Dask meta frames, empty selections)
         ncomp = 0
         for comp in [n for n in walk_own(f.node) if isinstance(n, (ast.SetComp, ast.ListComp, ast.GeneratorExp)) and '_geometry' in norm(n.elt)]:
